@@ -275,3 +275,19 @@ Proof.
   unfold rsa_exponent. destruct (be_val e <? 9223372036854775808)%N eqn:E; [|discriminate].
   intros H. inversion H; subst. split; [reflexivity|]. apply N.ltb_lt. exact E.
 Qed.
+
+(* ---- raw operations behind their guards (table of sites) ------------------ *)
+Lemma entry_raw_np {A} (entries : list A) i :
+  0 <= i < Z.of_nat (length entries) -> entry_raw entries i <> Panic.
+Proof.
+  intros H. unfold entry_raw. destruct (i <? 0) eqn:E; [lia|].
+  destruct (nth_error entries (Z.to_nat i)) eqn:F; [discriminate|]. apply nth_error_None in F. lia.
+Qed.
+
+Lemma slh_pk_slices_np n pk : zlen pk = 2 * n -> slh_pk_slices n pk <> Panic.
+Proof.
+  intros H. assert (0 <= n) by zl. unfold slh_pk_slices. rewrite !slice_z_ok by zl. discriminate.
+Qed.
+
+Lemma first_byte_np pt c : 0 <= c -> zlen pt = 2 * c + 1 -> first_byte pt <> Panic.
+Proof. intros Hc H. unfold first_byte. rewrite index_z_ok by zl. discriminate. Qed.
